@@ -58,8 +58,18 @@ KindReadings(k) ==
 IsRange(e) == e \in {"range", "emptyRange", "backRange"}
 
 \* "a numeric or numeric-sequence value"; the empty sequence is a don't-care
+\* Boundary totals: the same shapes with a value / a total of zero.  The routing rule of the
+\* statement does not depend on the value being non-zero, so each routes like its twin.
+ZeroTotals == {"i64zero", "f64zero", "f64negzero", "seqiZeros", "seqiCancel", "seqfZeros", "seqfCancel"}
+Twin(v) ==
+    CASE v = "i64zero" -> "i64"
+      [] v \in {"f64zero", "f64negzero"} -> "f64"
+      [] v \in {"seqiZeros", "seqiCancel"} -> "seqi"
+      [] v \in {"seqfZeros", "seqfCancel"} -> "seqf"
+      [] OTHER -> v
+
 NumericReadings(v) ==
-    CASE v \in {"i64", "f64", "u64big", "seqi", "seqf"} -> {TRUE}
+    CASE Twin(v) \in {"i64", "f64", "u64big", "seqi", "seqf"} -> {TRUE}
       [] v = "emptySeq" -> {TRUE, FALSE}
       [] OTHER -> {FALSE}          \* text, bool, missing, nested sequence, sequence of text
 
@@ -81,8 +91,17 @@ Allowed(x, c) ==
 \* data/metrics.rs Extract: i64/f64 push a point (smaller integers and f32 are forwarded to
 \* them by sval; integers beyond i64 arrive as u128/i128); null, bool and text are errors; one
 \* level of sequence is entered, a nested one is an error
-StreamOk(v) == v \in {"i64", "f64", "u64big", "seqi", "seqf", "emptySeq"}
-NPoints(v) == CASE v \in {"i64", "f64", "u64big"} -> 1 [] v \in {"seqi", "seqf"} -> 2 [] OTHER -> 0
+StreamOk(v) == Twin(v) \in {"i64", "f64", "u64big", "seqi", "seqf", "emptySeq"}
+\* points pushed into the builder (SumPoints folds them into one accumulator that starts at
+\* the integer 0; RawPointSet keeps them)
+NPoints(v) ==
+    CASE Twin(v) \in {"i64", "f64", "u64big"} -> 1
+      [] v \in {"seqi", "seqf", "seqfZeros", "seqfCancel"} -> 2
+      [] v \in {"seqiZeros", "seqiCancel"} -> 4
+      [] OTHER -> 0
+\* the accumulated total of a sum / count (irrelevant to into_points, which must not look at it:
+\* a total of zero is a sample like any other)
+TotalIsZero(v) == v \in ZeroTotals \cup {"emptySeq"}
 
 \* SumPoints::into_points is always Some; RawPointSet::into_points is None without points
 IntoPointsSome(v, a) == IF a \in {"sum", "count"} THEN TRUE ELSE NPoints(v) > 0
@@ -152,6 +171,11 @@ TypeOK ==
 
 \* the transcription of the emit path takes a route the statement permits
 RouteRefines == pc = "done" => Outcome \in Allowed(ev, cfg)
+
+\* a boundary total takes the route of its twin (level A sanity: the statement's rule does
+\* not mention the magnitude of the value)
+ZeroTotalsRouteLikeTwins ==
+    ev.val \in ZeroTotals => Allowed(ev, cfg) = Allowed([ev EXCEPT !.val = Twin(ev.val)], cfg)
 
 \* the discard counter increases exactly when nothing was sent
 DiscardCounted == pc = "done" => ((discarded = 1) <=> (sent = "none"))
